@@ -671,6 +671,11 @@ def run_property(pid, tier="quick", seed=0, update_baseline=False, jobs=None):
             # about this obligation
             replay = dict(replay, violated=False, note="the only failing input found reproduces a listed known finding")
             confirmed = False
+        if was_proved and not confirmed and o.get("backend") == "killed":
+            # the solver process was killed by the hard wall-clock guard (machine overload): that is a resource event, not a verdict
+            # of any back end - never a VIOLATION (seen at 15-fold oversubscription: proved obligations of untouched functions)
+            undecided.append(f"obligation {o['name']}: solver process killed by the wall-clock guard (was proved in the baseline)")
+            continue
         if confirmed or was_proved:
             path = os.path.join(replay_dir, _safe(o["name"]) + ".json")
             json.dump(dict(property=pid, obligation=o["name"], function=r.get("func"), file=r.get("file"), lines=r.get("lines"),
